@@ -24,7 +24,7 @@ var c02Names = []string{
 	// everything DNS allows in a name and miekg/dns packs, not only host-name syntax:
 	// underscores, leading / trailing hyphens, all-digit labels, a 63-byte label
 	"_dmarc.tracker.net", "a_b.tracker.net", "-lead.tracker.net", "trail-.tracker.net", "x.tracker.123", "123.456",
-	"_sip._tcp.lb.example.com", strings.Repeat("w", 63) + ".tracker.net", "UPPER_case.Ads.Example.ORG",
+	"_sip._tcp.lb.example.com", "xn--e1afmkfd.xn--p1ai", "cdn.xn--80ak6aa92e.com", strings.Repeat("w", 63) + ".tracker.net", "UPPER_case.Ads.Example.ORG",
 }
 
 var c02V4 = []string{"1.2.3.4", "93.184.216.34", "10.0.0.5", "11.2.3.45", "0.0.0.1", "127.0.0.255", "192.0.2.1"}
@@ -215,6 +215,26 @@ func c02GenCase(r *rand.Rand) (c *c01Case) {
 	if c.urcode != dns.RcodeSuccess && r.IntN(4) == 0 {
 		c.uans = nil
 	}
+	if r.IntN(4) == 0 {
+		// an authority section; its records may name blocked hosts but are never scanned
+		hdr := func(n string, t uint16) dns.RR_Header {
+			return dns.RR_Header{Name: n, Rrtype: t, Class: dns.ClassINET, Ttl: uint32(100 + r.IntN(2000))}
+		}
+		for n := 1 + r.IntN(2); n > 0; n-- {
+			t := vutil.Pick(r, c02Names)
+			switch r.IntN(3) {
+			case 0:
+				c.uns = append(c.uns, &dns.SOA{Hdr: hdr("example.com.", dns.TypeSOA), Ns: "ns.invalid.", Mbox: "hostmaster." + t + ".", Serial: 1, Refresh: 2, Retry: 3, Expire: 4, Minttl: 5})
+			case 1:
+				c.uns = append(c.uns, &dns.CNAME{Hdr: hdr("example.com.", dns.TypeCNAME), Target: t + "."})
+				revealed = append(revealed, strings.ToLower(t))
+			default:
+				ip := vutil.Pick(r, c02V4)
+				c.uns = append(c.uns, &dns.A{Hdr: hdr(t+".", dns.TypeA), A: c02IP(ip)})
+				revealed = append(revealed, ip)
+			}
+		}
+	}
 	pick := func() string {
 		if len(revealed) == 0 || r.IntN(8) == 0 {
 			return vutil.Pick(r, append(append([]string{}, c02Names...), c02V4...))
@@ -289,6 +309,7 @@ func c02SeqGen(r *rand.Rand, emit vutil.Emit) {
 		// the cache model covers plain forwarding only: no rewrites / hosts / safe browsing here
 		c.rewrites, c.hosts, c.sbOn, c.parOn, c.sbSet, c.parSet, c.sbHost, c.parHost, c.csb, c.cpar =
 			nil, nil, false, false, nil, nil, "", "", false, false
+		c.uns = nil // an authority section changes what dnsproxy caches (negative caching): not in the cache model
 		f := c.fields("C02.sreset")
 		line := append(append([]string{f[0]}, c02CacheForm(c)...), f[1:]...)
 		emit(append(line, c.oracleFields()...)...)
